@@ -362,7 +362,9 @@ def evaluate(ctx, mode, inp, faults, res, base):
     probs = []
 
     def bad(problem, text):
-        probs.append(("cli:%s:%s:%s" % (problem, cls, where),
+        # monitor findings are about the order of calls, whatever fault (if any) was planned
+        key = "cli:%s" % problem if problem.startswith("monitor:") else "cli:%s:%s:%s" % (problem, cls, where)
+        probs.append((key,
                       "mode=%s input=%s faults=%s at %s: %s; rc=%s files=%s stderr=%r" % (
                           mode.name, inp, faults or "-", where, text, res.rc,
                           {n: len(v[0]) for n, v in res.state.items()}, res.err.strip()[-160:])))
@@ -507,6 +509,7 @@ def _run(ck, ctx, tier):
     ex = concurrent.futures.ThreadPoolExecutor(vlib.NCPU)
     table = ck.sub
     outcomes = {}
+    confirmed = set()
 
     def record(mode, inp, faults, res, base, probs, obs, fired, noop, label):
         ck.add("evals")
@@ -523,7 +526,13 @@ def _run(ck, ctx, tier):
         return probs
 
     def confirm(mode, inp, faults, base, probs):
-        """A failure must reproduce before it is reported (DESIGN.md section 6)."""
+        """A failure must reproduce before it is reported (DESIGN.md section 6); once a failure class has been
+        confirmed, further members of the class are recorded without another run."""
+        rp = json.dumps({"mode": mode.name, "input": inp, "faults": faults})
+        if all(k in confirmed for k, _ in probs):
+            for key, text in probs:
+                ck.fail(key, text, rp)
+            return
         res2 = run_case(ctx, mode, inp, faults)
         if res2.timed_out:
             global TIMEOUT
@@ -534,9 +543,9 @@ def _run(ck, ctx, tier):
                 TIMEOUT = old
         p2, _, _, _ = evaluate(ctx, mode, inp, faults, res2, base)
         keys2 = {k for k, _ in p2}
-        rp = json.dumps({"mode": mode.name, "input": inp, "faults": faults})
         for key, text in probs:
             if key in keys2:
+                confirmed.add(key)
                 ck.fail(key, text, rp)
             else:
                 ck.infra_errors.append("not reproducible on a second run: %s | %s" % (key, text[:300]))
